@@ -29,13 +29,16 @@ ATOMS: List[A.Atom] = [
     ["txn GroupIndex", "int 1", "<"],
     ["int 272000", "txn Fee", ">="],
     ["gtxn 1 RekeyTo", Z, "=="],
+    ["int 1", "gtxns RekeyTo", Z, "=="],
+    ["txn GroupIndex", "int 1", "+", "gtxns RekeyTo", Z, "=="],
+    ["txn Fee", "int 43981", "<="],
 ]
 
 
 def items(tier: str) -> List[Any]:
     out: List[Any] = []
     sizes = (1, 2) if tier == "quick" else (1, 2, 3)
-    alpha = ATOMS[:9] if tier == "quick" else ATOMS
+    alpha = ATOMS[:9] + ATOMS[11:] if tier == "quick" else ATOMS  # 43981 = 0xABCD: every hex digit is a letter
     for nsubs in (0, 1, 2):
         o = core.Opts(cond_level=0, nsubs=nsubs, kinds=("assert", "ret", "ret1", "err", "if", "while", "call"))
         for size in sizes if nsubs < 2 else (2, 3):
